@@ -72,7 +72,11 @@ def HostMap.deleteHostInfo (m : HostMap) (hi : HostInfo) : HostMap :=
   let ri := match alookup hi.remoteIndex m1.remoteIndexes with
     | some h2 => if h2.id == hi.id then aerase hi.remoteIndex m1.remoteIndexes else m1.remoteIndexes
     | none => m1.remoteIndexes
-  { m1 with remoteIndexes := ri, indexes := aerase hi.localIndex m1.indexes }
+  -- Indexes: only if the entry still points to this hostinfo (ownership check, like RemoteIndexes)
+  let ix := match alookup hi.localIndex m1.indexes with
+    | some h2 => if h2.id == hi.id then aerase hi.localIndex m1.indexes else m1.indexes
+    | none => m1.indexes
+  { m1 with remoteIndexes := ri, indexes := ix }
 
 /-- the `final` result of unlockedDeleteHostInfo -/
 def HostMap.deleteIsFinal (m : HostMap) (hi : HostInfo) : Bool :=
@@ -177,10 +181,13 @@ def LH.refresh (lh : LH) (id : Nat) : LH :=
   let r := lh.get id
   lh.put id { r with bad := [] }
 
-/-! ### timer wheel (TimerWheel[netip.Addr], times in ns) -/
+/-! ### timer wheel (TimerWheel[handshakeTimer], times in ns). An item is (overlay address, identity of the
+pending handshake the entry was armed for). -/
+
+abbrev TimerItem := Addr × Nat
 
 structure Wheel where
-  slots : List (List Addr)
+  slots : List (List TimerItem)
   current : Nat := 0
   lastTick : Option Nat := none
   tickDur : Nat
@@ -204,21 +211,21 @@ def Wheel.findWheel (w : Wheel) (timeout : Int) : Nat :=
   tick.toNat
 
 /-- Add -/
-def Wheel.add (w : Wheel) (v : Addr) (timeout : Int) : Wheel :=
+def Wheel.add (w : Wheel) (v : TimerItem) (timeout : Int) : Wheel :=
   let i := w.findWheel timeout
   { w with slots := w.slots.modify i (fun l => l ++ [v]) }
 
 /-- one iteration of the loop of Advance -/
-def Wheel.step1 (w : Wheel) : Wheel × List Addr :=
+def Wheel.step1 (w : Wheel) : Wheel × List TimerItem :=
   let c := if w.current + 1 ≥ w.len then 0 else w.current + 1
   ({ w with current := c, slots := w.slots.set c [] }, w.slots.getD c [])
 
-def Wheel.stepN : Nat → Wheel → List Addr → Wheel × List Addr
+def Wheel.stepN : Nat → Wheel → List TimerItem → Wheel × List TimerItem
   | 0, w, acc => (w, acc)
   | n + 1, w, acc => let (w', e) := w.step1; Wheel.stepN n w' (acc ++ e)
 
 /-- Advance(now) followed by draining Purge: the new wheel and the expired items in order. -/
-def Wheel.advance (w : Wheel) (now : Nat) : Wheel × List Addr :=
+def Wheel.advance (w : Wheel) (now : Nat) : Wheel × List TimerItem :=
   let last := w.lastTick.getD now
   let ticks := (now - last) / w.tickDur
   let n := if ticks > w.len then w.len else ticks
@@ -240,6 +247,7 @@ structure Pending where
   ready : Bool := false
   pkt0 : Option Handle := none
   store : List Cached := []
+  offered : List Cached := []      -- ghost: every packet handed to cachePacket for this handshake, in order
   remotes : Option Nat := none
   lastRemotes : List UNode := []
   deriving Repr, DecidableEq, Inhabited
@@ -301,9 +309,10 @@ def Node.init (c : Cfg) : Node :=
 structure Out where
   tx : List Tx := []
   made : List PktInfo := []
+  flushed : List (Nat × List Cached) := []   -- ghost: (identity of the completed pending handshake, packets released)
   deriving Repr, DecidableEq, Inhabited
 
-def Out.app (a b : Out) : Out := { tx := a.tx ++ b.tx, made := a.made ++ b.made }
+def Out.app (a b : Out) : Out := { tx := a.tx ++ b.tx, made := a.made ++ b.made, flushed := a.flushed ++ b.flushed }
 
 /-- one read of 4 bytes from the (scripted) crypto/rand stream -/
 def PSide.draw (c : Cfg) (n : PSide) : PSide × Nat :=
@@ -331,11 +340,15 @@ def PSide.deletePending (n : PSide) (p : Pending) : PSide :=
     vpnIps := match alookup p.vpnAddr n.vpnIps with
       | some cur => if cur.id == p.id then aerase p.vpnAddr n.vpnIps else n.vpnIps
       | none => n.vpnIps,
-    pindexes := aerase p.localIndex n.pindexes }
+    -- the pending index only if it is still held by this hostinfo
+    pindexes := match alookup p.localIndex n.pindexes with
+      | some cur => if cur == p.id then aerase p.localIndex n.pindexes else n.pindexes
+      | none => n.pindexes }
 
 /-- cachePacket -/
 def Pending.cache (p : Pending) (c : Cached) : Pending :=
-  if p.store.length < hsm_maxCachedPackets then { p with store := p.store ++ [c] } else p
+  if p.store.length < hsm_maxCachedPackets then { p with store := p.store ++ [c], offered := p.offered ++ [c] }
+  else { p with offered := p.offered ++ [c] }
 
 /-- StartHandshake(vpnAddr, cacheCb) where the callback is `cb` on the pending entry. -/
 def PSide.startHandshake (c : Cfg) (n : PSide) (a : Addr) (cb : Pending → Pending) : PSide :=
@@ -345,7 +358,7 @@ def PSide.startHandshake (c : Cfg) (n : PSide) (a : Addr) (cb : Pending → Pend
     let hh : Pending := { id := n.nextObj, vpnAddr := a }
     { n with nextObj := n.nextObj + 1,
              vpnIps := ainsert a (cb hh) n.vpnIps,
-             wheel := n.wheel.add a (c.interval : Int) }
+             wheel := n.wheel.add (a, hh.id) (c.interval : Int) }
 
 /-- allocateIndex: up to 32 candidates, the first one free in both hostmaps -/
 def PSide.allocIndex (c : Cfg) (mainIdx : List (Nat × HostInfo)) : Nat → PSide → PSide × Option Nat
@@ -373,37 +386,48 @@ def stage0Tx (pkt0 : Option Handle) (rem : List UNode) : List Tx :=
   | some h, _ :: _ => [Tx.hs h rem]
   | _, _ => []
 
-/-- handleOutbound(vpnIp, lighthouseTriggered) -/
+/-- hostinfo.remotes, or the lighthouse cache entry for the address if it is still nil -/
+def remoteListOf (lh : LH) (hh : Pending) (a : Addr) : LH × Nat :=
+  match hh.remotes with
+  | some r => (lh, r)
+  | none => lh.queryCache [a]
+
+/-- the body of handleOutbound after the attempt counter was raised: build the first packet if needed, look
+up the remotes, transmit. Returns the side (pending table and wheel untouched), the updated pending record
+and what was emitted. -/
+def PSide.attempt (c : Cfg) (mainIdx : List (Nat × HostInfo)) (n : PSide) (hh : Pending) (a : Addr) (trig : Bool)
+    (now : Nat) : PSide × Pending × Out :=
+  let (n, hh, o, ok) := if hh.ready then (n, hh, ({} : Out), true) else n.buildStage0 c mainIdx hh now
+  if !ok then (n, hh, o) else
+  let (lh, rid) := remoteListOf n.lh hh a
+  let hh := { hh with remotes := some rid }
+  let n := { n with lh := lh }
+  let rem := (lh.get rid).out
+  let changed := rem != hh.lastRemotes
+  -- a lighthouse trigger only matters if it brought new remotes
+  if trig && !changed then (n, hh, o) else
+  (n, { hh with lastRemotes := rem }, o.app { tx := stage0Tx hh.pkt0 rem })
+
+/-- handleOutbound(vpnIp, lighthouseTriggered) / handleOutboundFor(vpnIp, armedFor, lighthouseTriggered) -/
 def PSide.handleOutbound (c : Cfg) (mainIdx : List (Nat × HostInfo)) (n : PSide) (a : Addr) (trig : Bool)
-    (now : Nat) : PSide × Out :=
+    (now : Nat) (armedFor : Option Nat := none) : PSide × Out :=
   match alookup a n.vpnIps with
   | none => (n, {})
   | some hh =>
+    -- handleOutboundFor: a timer entry armed for another (earlier) handshake is stale and ignored
+    if armedFor.any (fun id => id != hh.id) then (n, {}) else
     if hh.counter ≥ c.retries then (n.deletePending hh, {}) else
-    let hh := { hh with counter := hh.counter + 1 }
-    let (n, hh, o, ok) := if hh.ready then (n, hh, ({} : Out), true) else n.buildStage0 c mainIdx hh now
-    if !ok then
-      ({ (n.setPending hh) with wheel := n.wheel.add a ((c.interval : Int) * hh.counter) }, o)
-    else
-    let (lh, rid) := match hh.remotes with
-      | some r => (n.lh, r)
-      | none => n.lh.queryCache [a]
-    let hh := { hh with remotes := some rid }
-    let n := { n with lh := lh }
-    let rem := (lh.get rid).out
-    let changed := rem != hh.lastRemotes
-    if trig && !changed then (n.setPending hh, o) else
-    let hh := { hh with lastRemotes := rem }
-    let tx := stage0Tx hh.pkt0 rem
-    let n := n.setPending hh
-    let n := if trig then n else { n with wheel := n.wheel.add a ((c.interval : Int) * hh.counter) }
-    (n, o.app { tx := tx })
+    let r := n.attempt c mainIdx { hh with counter := hh.counter + 1 } a trig now
+    let n' := r.1.setPending r.2.1
+    -- every path of a timer firing re-arms with delay tryInterval * counter; a lighthouse-triggered attempt is
+    -- still in the wheel and never re-arms
+    ((if trig then n' else { n' with wheel := n'.wheel.add (a, r.2.1.id) ((c.interval : Int) * r.2.1.counter) }), r.2.2)
 
 /-- NextOutboundHandshakeTimerTick(now) -/
 def PSide.tick (c : Cfg) (mainIdx : List (Nat × HostInfo)) (n : PSide) (now : Nat) : PSide × Out :=
   let (w, expired) := n.wheel.advance now
   expired.foldl (fun (acc : PSide × Out) a =>
-    let (n', o) := acc.1.handleOutbound c mainIdx a false now
+    let (n', o) := acc.1.handleOutbound c mainIdx a.1 false now (some a.2)
     (n', acc.2.app o)) ({ n with wheel := w }, {})
 
 /-- GetOrHandshake -/
@@ -504,23 +528,21 @@ def Node.continueHandshake (n : Node) (via : UNode) (idx : Nat) (res : S2Res) : 
     | .err failed => if failed then ({ n with p := n.p.deletePending hh }, {}) else (n, {})
     | .completed c =>
       -- SetRemote(via) -> LearnRemote on the pending hostinfo's remote list
-      let (lh, rid) := match hh.remotes with
-        | some r => (n.p.lh, r)
-        | none => n.p.lh.queryCache [hh.vpnAddr]
+      let (lh, rid) := remoteListOf n.p.lh hh hh.vpnAddr
       let p := { n.p with lh := lh.learn rid hh.vpnAddr via }
       if c.certAddrs.any (fun a => n.cfg.myAddrs.contains a) then ({ n with p := p.deletePending hh }, {}) else
       if !c.certAddrs.contains hh.vpnAddr then
         -- wrong host responded: drop the pending entry, block the remote, start over, tell the peer to close
         let p := p.deletePending hh
         let p := { p with lh := p.lh.block rid via }
-        let p := p.startHandshake n.cfg hh.vpnAddr (fun nh => { nh with remotes := some rid, store := hh.store })
+        let p := p.startHandshake n.cfg hh.vpnAddr (fun nh => { nh with remotes := some rid, store := hh.store, offered := hh.offered })
         ({ n with p := p }, { tx := [.close via] })
       else
         -- Complete: out of pending, into main; then the cached packets the outbound firewall allows
         let p := p.deletePending hh
         let flushed := (hh.store.filter n.cfg.allowed).map (fun q => Tx.msg q.len via)
         ({ n with main := n.main.addHostInfo (initiatorHostInfo hh via c), p := { p with lh := p.lh.refresh rid } },
-         { tx := flushed })
+         { tx := flushed, flushed := [(hh.id, hh.store.filter n.cfg.allowed)] })
 
 /-- consumeInsidePacket for one UDP packet to overlay address `a` -/
 def Node.sendInside (n : Node) (a : Addr) (q : Cached) : Node × Out :=
